@@ -71,11 +71,12 @@ CHECKS = {
             "(type,size,content) equal; the missing sentinel never stands for an existing object.",
             "Uses the sandbox file system; mtimes set explicitly (ns); FileInfo::operator== evaluated inside valtool.",
             "DESIGN 2/C13"),
-    "C14": ("exploration", "hypothesis+valtool",
-            "PBT of pathIsPrefixedByPath against a three-valued component-wise reference over a collision-prone path alphabet",
+    "C14": ("exploration", "hypothesis+valtool+bsx",
+            "PBT of pathIsPrefixedByPath against a three-valued component-wise reference + removal-set invariant over histories of expected-output lists through the real stale-file-removal command (recording FileSystem)",
             "No counter-example among generated (path, root) pairs: true on every must pair, false on every must-not pair "
-            "(don't-care only for doubled-separator spellings and the empty root). The removal-set histories through "
-            "the real stale-file-removal command are added with the bsx executor.",
+            "(don't-care only for doubled-separator spellings and the empty root); over generated histories of lists and "
+            "roots, each build removes exactly (previous successful list minus current list) restricted by the roots, never a "
+            "relative path when roots are given, and nothing else.",
             "'..'/'.' are ordinary components (lexical).", "DESIGN 2/C14"),
     "C15": ("exploration", "hypothesis+valtool",
             "round-trip + canonicity + injectivity PBT over every BuildKey constructor and BuildValue factory (ASan build)",
@@ -97,6 +98,26 @@ CHECKS = {
             "input<->output moves, each deps-style pair, every flag) changes Command::getSignature(); description-only changes do "
             "not; signatures agree across processes; null builds start nothing, relevant edits and tampered outputs re-run the command.",
             "Signatures are read through the real BuildFile loader at commandPreparing in a dry build.", "DESIGN 2/C09"),
+    "C10": ("exploration", "hypothesis+bsx",
+            "fault-injection PBT: generated fault subsets (exit/signal/missing input/unwritable output) x serial/-j4 x cancel-or-continue front end, closure invariant over the vtool log",
+            "No counter-example: in a faulted build no command starts whose transitive producer closure contains a failed or "
+            "cancelled command, the build reports failure, the repaired build re-attempts every failed/cancelled command, "
+            "exits 0, reaches the clean state and is followed by a null build.",
+            "A phony command's virtual output is an ordering gate (llbuild deliberately does not propagate failure across it).",
+            "DESIGN 2/C10"),
+    "C11": ("exploration", "hypothesis+valtool+bsx",
+            "escape/parse round-trip PBT on exact-size buffers (ASan) + truncation/stray-byte family + touch-discovered-path histories through bsx",
+            "No counter-example: documented escaping round-trips byte for byte for both formats; malformed files either "
+            "report an error (and then fail the command) or yield a prefix; editing, deleting or creating any discovered "
+            "path re-runs the command, nothing else does.",
+            "Only dependency-info input records carry a re-run obligation; paths cannot contain NUL/TAB/CR/LF or begin with ':'.",
+            "DESIGN 2/C11"),
+    "C12": ("exploration", "hypothesis+bsx",
+            "PBT over (tree, edit sequence) vs a three-valued reference walk using libc fnmatch",
+            "No counter-example: tree nodes re-run after every observable visible change and not after null or hidden-only "
+            "edits; structure nodes re-run iff the visible (path,type) set changed.",
+            "chmod-only and same-size-same-mtime rewrites are not observable by stat (C13) and are don't-care; symlinks in "
+            "generated trees are dangling (llbuild stats through links).", "DESIGN 2/C12"),
 }
 
 NOT_APPLICABLE = {
@@ -140,10 +161,10 @@ def main():
         },
         "engines": [
             {"name": "hypothesis+bsx", "path": "pbt/bs_model.py + harness/bsx.cpp + harness/vtool.c",
-             "serves_properties": [p for p in sorted(CHECKS) if CHECKS[p][1] == "hypothesis+bsx"],
+             "serves_properties": [p for p in sorted(CHECKS) if "bsx" in CHECKS[p][1]],
              "kind_free_text": "Hypothesis generating build descriptions and edit histories; bsx = BuildSystemFrontend front end (target or single node, recording FS); vtool = deterministic command with logical clock and fault injection; oracle = Python description evaluator"},
             {"name": "hypothesis+valtool", "path": "pbt/val.py + harness/valtool.cpp",
-             "serves_properties": [p for p in sorted(CHECKS) if CHECKS[p][1] == "hypothesis+valtool"],
+             "serves_properties": [p for p in sorted(CHECKS) if "valtool" in CHECKS[p][1]],
              "kind_free_text": "Hypothesis driving a persistent line-protocol server (ASan build) that exposes llbuild's pure value-level functions; replaces the rapidcheck binary planned in DESIGN 1.1 (same oracles, shared evidence/replay plumbing, ~3-5k cases/s)"},
             {"name": "libfuzzer", "path": "fuzz/ + pbt/c19.py", "serves_properties": ["C19"],
              "kind_free_text": "five libFuzzer targets (clang-14 -fsanitize=fuzzer,address,undefined) with semantic oracles inside the targets"},
